@@ -207,6 +207,8 @@ def plist(xs):
 def canon(r):
     """The harness's own plain rendering of a rule (one statement, lists parenthesised and comma separated)."""
     k = r["kind"]
+    if "text" in r:
+        return r["text"]          # line rules (comment, include) carried verbatim
     s = q_prefix(r)
     if k == "file":
         if r["Owner"]:
